@@ -15,8 +15,12 @@ import common
 
 PID = "C17"
 CORPUS = os.path.join(common.CORPUS, PID)
-PROC_TIMEOUT = 60
+SINGLE_TIMEOUT = 30          # one op takes milliseconds; 30 s alone means it does not return
 MAX_RESTARTS = 4
+
+
+def batch_timeout(nops):
+    return 60 + nops // 10
 NORETURN = "NORETURN"
 
 
@@ -77,8 +81,8 @@ def run_impl(exes, b, ops=None):
     restarts = 0
     while len(outs) < len(ops):
         rest = ops[len(outs):]
-        rc, out, err = common.sh([exes[b.prog]] + (["yield"] if b.yield_mode else []),
-                                 inp="\n".join(rest) + "\n", timeout=PROC_TIMEOUT, env=env)
+        cmd = [exes[b.prog]] + (["yield"] if b.yield_mode else [])
+        rc, out, err = common.sh(cmd, inp="\n".join(rest) + "\n", timeout=batch_timeout(len(rest)), env=env)
         lines = out.splitlines()
         # a line is complete only if the process printed its newline; a partial last line of a
         # dead process belongs to the op that did not return
@@ -91,6 +95,12 @@ def run_impl(exes, b, ops=None):
         if len(lines) == len(rest) and rc != 0:
             # every op answered but the process failed afterwards (myth_fini): harness problem
             raise RuntimeError("%s exited with rc=%s after answering every op: %s" % (b.prog, rc, err[-300:]))
+        if rc == -9 and len(rest) > 1:
+            # the batch ran out of time: is it this op, or an overloaded machine?  The op alone
+            # gets SINGLE_TIMEOUT; if it answers, the batch timeout says nothing about the property.
+            rc1, out1, err1 = common.sh(cmd, inp=rest[len(lines)] + "\n", timeout=SINGLE_TIMEOUT, env=env)
+            if rc1 == 0 and out1.endswith("\n"):
+                raise RuntimeError("batch of %d ops timed out at `%s`, which returns when run alone: machine overloaded?" % (len(rest), rest[len(lines)]))
         why = "timeout" if rc == -9 else "rc=%s %s" % (rc, " ".join(err.split()[:12]))
         outs.append(NORETURN + " " + why)
         restarts += 1
@@ -336,14 +346,14 @@ def gen_tg(rng, idx, info):
 
 def gen_batches(rng, info, tier):
     q = tier == "quick"
-    nb1, nb3, nb8 = (110, 70, 30) if q else (1400, 900, 500)
-    np1, np4 = (180, 120) if q else (2600, 1600)
-    nt1, nt4 = (45, 30) if q else (500, 300)
+    nb1, nb3, nb8 = (600, 400, 200) if q else (18000, 12000, 7500)
+    np1, np4 = (1000, 700) if q else (36000, 24000)
+    nt1, nt4 = (250, 160) if q else (7500, 4500)
     W = min(8, os.cpu_count() or 2)
     bs = [
-        Batch("bulk_unit", 1, False, [gen_bulk(rng, i, info, False, i == 50 or (not q and i % 211 == 0)) for i in range(nb1)]),
-        Batch("bulk_unit", 3, True, [gen_bulk(rng, i, info, True, i == 33 or (not q and i % 197 == 0)) for i in range(nb3)]),
-        Batch("bulk_unit", W, True, [gen_bulk(rng, i, info, True, i == 7 or (not q and i % 101 == 0)) for i in range(nb8)]),
+        Batch("bulk_unit", 1, False, [gen_bulk(rng, i, info, False, i % 211 == 50) for i in range(nb1)]),
+        Batch("bulk_unit", 3, True, [gen_bulk(rng, i, info, True, i % 197 == 33) for i in range(nb3)]),
+        Batch("bulk_unit", W, True, [gen_bulk(rng, i, info, True, i % 101 == 7) for i in range(nb8)]),
         Batch("bulk_mtbb", 1, False, [gen_pfor(rng, i, i % 97 == 96) for i in range(np1)] + [gen_tg(rng, i, info) for i in range(nt1)]),
         Batch("bulk_mtbb", 4, True, [gen_pfor(rng, i, i % 89 == 88) for i in range(np4)] + [gen_tg(rng, i, info) for i in range(nt4)]),
         Batch("bulk_mtbb", 2, True, [gen_pfor(rng, i, False) for i in range(np4 // 2)] + [gen_tg(rng, i, info) for i in range(nt4 // 2)]),
